@@ -18,6 +18,25 @@ def strategy(tier):
     return G.gcm_case(tier)
 
 
+def enumerated(tier, seed):
+    """a few large sequences (more than 65536 stubs per topology, motif sizes 2/3/5), all three algorithms:
+    anything that processes stubs or rows in blocks has its boundaries here, far beyond the generated sizes."""
+    out = []
+    for i, algo in enumerate(["fast", "network", "motifs"]):
+        N = 70020 + 30 * i
+        motifs = []
+        for j, m in enumerate([2, 3, 5]):
+            mo = {"kind": "clique", "m": m, "edges": [], "ret": "list", "orbit_sizes": [m], "cols": [j],
+                  "names": f"t{j}" if algo != "motifs" else [f"t{j}"] * (m * (m - 1) // 2)}
+            motifs.append(mo)
+        out.append({"algo": algo, "path": "class", "N": N, "big": True, "motifs": motifs,
+                    "rng": {"mode": "seed", "seed": seed * 10 + i}})
+    return out
+
+
+ENUM_CHUNK = 1
+
+
 def norm_edges(es, bare):
     if bare:
         return [tuple(es)]
@@ -25,6 +44,9 @@ def norm_edges(es, bare):
 
 
 def check(case):
+    if case.get("big") and "jds" not in case:
+        # every vertex joint degree (1,1,1); N is divisible by 30 so the handshake condition holds
+        case = {**case, "jds": [[1, 1, 1]] * case["N"]}
     g, cls, res, journal, jds, pristine = G.generate(case)
     algo = case["algo"]
     N = case["N"]
